@@ -42,6 +42,8 @@ pub enum Val {
     Pair(Arc<PairCell>),
     /// (ice-9 atomic) box
     Box(Arc<StdMutex<Val>>),
+    /// what `(stat name)` returns (the name's hash; field accessors derive values from it)
+    Stat(u64),
 }
 
 #[derive(Debug, Default)]
@@ -314,6 +316,9 @@ const PROCEDURES: &[&str] = &[
     "list->vector", "vector-for-each", "values", "identity", "usleep", "sleep", "yield",
     "sort", "sort!", "stable-sort", "list-sort", "string<?", "string>?", "string<=?", "string>=?", "string-ci<?", "string-ci=?", "char<?", "char>?", "char=?", "delete",
     "delete-duplicates",
+    "gmtime", "tm:sec", "tm:min", "tm:hour", "tm:mday", "tm:mon", "tm:year", "tm:wday", "tm:yday", "tm:isdst", "tm:gmtoff", "mktime", "current-time", "getuid", "geteuid",
+    "getgid", "getegid", "getpid", "gethostname", "getenv", "getcwd", "file-exists?", "access?", "stat", "lstat", "stat:mtime", "stat:atime", "stat:ctime", "stat:size", "stat:uid",
+    "stat:gid", "stat:mode", "stat:perms", "stat:ino", "stat:nlink", "stat:type",
     "pair?", "list?", "symbol?", "cadr", "cddr", "caar", "cdar", "assq", "assv", "assoc", "assq-ref", "assv-ref", "assoc-ref", "memq", "memv",
     "current-thread", "try-mutex", "mutex-locked?", "mutex-owner", "call-with-output-string", "open-output-string", "get-output-string", "vector", "vector-ref", "vector-length", "make-vector",
     "vector-set!", "vector-fill!", "list-ref", "min", "max", "abs", "modulo", "remainder",
@@ -1001,7 +1006,28 @@ impl Runtime {
                                 *inner.as_ref().unwrap().val.lock().unwrap() = clo.clone();
                                 return self.apply(&clo, inits, ctx);
                             }
-                            "let*" | "let" | "letrec" => {
+                            "letrec" | "letrec*" => {
+                                // every binding is in scope of every initialiser (mutually recursive procedures)
+                                let Some(Sexp::List(bs)) = items.get(1) else { return unsupported("letrec without binding list") };
+                                let mut inner = env.clone();
+                                let mut names = vec![];
+                                for b in bs {
+                                    let Sexp::List(pair) = b else { return unsupported("malformed binding") };
+                                    let (Some(Sexp::Sym(n)), Some(init)) = (pair.first(), pair.get(1)) else {
+                                        return unsupported("malformed binding");
+                                    };
+                                    inner = bind(&inner, n, Val::Unspec);
+                                    names.push((n.clone(), init.clone()));
+                                }
+                                for (n, init) in &names {
+                                    let v = self.eval(init, &inner, ctx)?;
+                                    if let Some(f) = find_frame(&inner, n) {
+                                        *f.val.lock().unwrap() = v;
+                                    }
+                                }
+                                return self.eval_body(&items[2..], &inner, ctx);
+                            }
+                            "let*" | "let" => {
                                 let Some(Sexp::List(bs)) = items.get(1) else { return unsupported("let without binding list") };
                                 let mut inner = env.clone();
                                 let mut pending = vec![];
@@ -1043,6 +1069,12 @@ impl Runtime {
                                         self.eval(test, env, ctx)?
                                     };
                                     if truthy(&hit) {
+                                        // (test => receiver): the receiver is applied to the value of the test
+                                        if matches!(c.get(1), Some(Sexp::Sym(a)) if a == "=>") {
+                                            let Some(recv) = c.get(2) else { return unsupported("cond => without receiver") };
+                                            let f = self.eval(recv, env, ctx)?;
+                                            return self.apply(&f, vec![hit], ctx);
+                                        }
                                         let mut last = hit;
                                         for form in &c[1..] {
                                             last = self.eval(form, env, ctx)?;
@@ -1298,6 +1330,61 @@ impl Runtime {
                 })
             }
             "localtime" => Ok(Val::Tm(as_int(args.first().unwrap_or(&Val::Unspec), name)?)),
+            // ---- what a policy may ask the system at scan time: deterministic functions of their
+            // arguments here (tests only need to be functions of the file record and of constants)
+            "gmtime" => Ok(Val::Tm(as_int(args.first().unwrap_or(&Val::Unspec), name)?)),
+            "tm:sec" | "tm:min" | "tm:hour" | "tm:mday" | "tm:mon" | "tm:year" | "tm:wday" | "tm:yday" | "tm:isdst" | "tm:gmtoff" => match args.first() {
+                Some(Val::Tm(t)) => {
+                    let t = *t;
+                    let days = t.div_euclid(86_400);
+                    let secs = t.rem_euclid(86_400);
+                    Ok(Val::Int(match name {
+                        "tm:sec" => secs % 60,
+                        "tm:min" => secs / 60 % 60,
+                        "tm:hour" => secs / 3600,
+                        "tm:wday" => (days + 4).rem_euclid(7),
+                        "tm:yday" => days.rem_euclid(365),
+                        "tm:mday" => 1 + days.rem_euclid(28),
+                        "tm:mon" => days.div_euclid(28).rem_euclid(12),
+                        "tm:year" => 70 + days.div_euclid(365),
+                        _ => 0,
+                    }))
+                }
+                other => runtime(format!("{name}: expected a broken-down time, got {other:?}")),
+            },
+            "mktime" => match args.first() {
+                Some(Val::Tm(t)) => Ok(pair(Val::Int(*t), Val::Tm(*t))),
+                other => runtime(format!("mktime: expected a broken-down time, got {other:?}")),
+            },
+            "current-time" => Ok(Val::Int(1_700_000_000)),
+            "getuid" | "geteuid" => Ok(Val::Int(1000)),
+            "getgid" | "getegid" => Ok(Val::Int(100)),
+            "getpid" => Ok(Val::Int(4242)),
+            "gethostname" => s("mds01"),
+            "getenv" => Ok(Val::Bool(false)),
+            "getcwd" => s("/sim/scratch"),
+            "file-exists?" | "access?" => Ok(Val::Bool(crate::rng::hash_str(as_str(args.first().unwrap_or(&Val::Unspec), name)?) % 2 == 0)),
+            "stat" | "lstat" => {
+                let n = as_str(args.first().unwrap_or(&Val::Unspec), name)?;
+                Ok(Val::Stat(crate::rng::hash_str(n)))
+            }
+            "stat:mtime" | "stat:atime" | "stat:ctime" | "stat:size" | "stat:uid" | "stat:gid" | "stat:mode" | "stat:perms" | "stat:ino" | "stat:nlink" | "stat:type" => match args.first() {
+                Some(Val::Stat(h)) => {
+                    let k = crate::rng::mix(&[*h, crate::rng::hash_str(name)]);
+                    Ok(match name {
+                        "stat:mtime" | "stat:atime" | "stat:ctime" => Val::Int(1_400_000_000 + (k % 300_000_000) as i128),
+                        "stat:size" => Val::Int((k % 1_000_000) as i128),
+                        "stat:uid" => Val::Int([0, 1000, 60_001][(k % 3) as usize]),
+                        "stat:gid" => Val::Int([0, 100, 60_001][(k % 3) as usize]),
+                        "stat:mode" => Val::Int(0o100644),
+                        "stat:perms" => Val::Int(0o644),
+                        "stat:nlink" => Val::Int(1),
+                        "stat:type" => Val::Sym(Arc::from("regular")),
+                        _ => Val::Int((k % 100_000) as i128),
+                    })
+                }
+                other => runtime(format!("{name}: not a stat object: {other:?}")),
+            },
             "strftime" => {
                 let f = as_str(args.first().unwrap_or(&Val::Unspec), name)?;
                 match args.get(1) {
